@@ -1,10 +1,9 @@
 from amaranth import *
 from amaranth.utils import *
 import amaranth.lib.memory as memory
-from amaranth_types import ShapeLike
+from amaranth_types import ShapeLike, ValueLike
 import amaranth_types.memory as amemory
 
-from transactron.utils.amaranth_ext.elaboratables import OneHotMux
 from transactron.utils.transactron_helpers import from_method_layout, make_layout
 from ..core import *
 from ..utils import SrcLoc, get_src_loc, MultiPriorityEncoder
@@ -121,28 +120,23 @@ class MemoryBank(Elaboratable):
         overflow_next = [Signal(self.shape) for _ in range(self.reads_ports)]
         overflow_addr = [Signal(range(self.depth), reset_less=True) for _ in range(self.reads_ports)]
 
+        def write_bit_mask(j: int) -> Value:
+            # one bit per data bit: set when write port `j` writes that bit in the current cycle
+            en = write_port[j].en
+            return Cat(bit.replicate(len(Value.cast(write_port[j].data)) // len(en)) for bit in en)
+
+        def apply_writes(addr: Value, data: ValueLike) -> Value:
+            # value of the memory cell `addr` in the next clock cycle, given its current value `data`
+            result = Value.cast(data)
+            for j in range(self.writes_ports):
+                mask = Mux(write_port[j].addr == addr, write_bit_mask(j), 0)
+                result = (result & ~mask) | (Value.cast(write_port[j].data) & mask)
+            return result
+
         for i in range(self.reads_ports):
             if self.read_on_resp:
-                read_output_addr_match = [
-                    write_port[j].en & (write_port[j].addr == read_output_addr[i]) for j in range(self.writes_ports)
-                ]
-                overflow_addr_match = [
-                    write_port[j].en & (write_port[j].addr == overflow_addr[i]) for j in range(self.writes_ports)
-                ]
-                m.d.comb += read_output_next[i].eq(
-                    OneHotMux.create(
-                        m,
-                        [(read_output_addr_match[j], write_port[j].data) for j in range(self.writes_ports)],
-                        read_port[i].data,
-                    )
-                )
-                m.d.comb += overflow_next[i].eq(
-                    OneHotMux.create(
-                        m,
-                        [(overflow_addr_match[j], write_port[j].data) for j in range(self.writes_ports)],
-                        overflow_data[i],
-                    )
-                )
+                m.d.comb += Value.cast(read_output_next[i]).eq(apply_writes(read_output_addr[i], read_port[i].data))
+                m.d.comb += Value.cast(overflow_next[i]).eq(apply_writes(overflow_addr[i], overflow_data[i]))
                 m.d.sync += overflow_data[i].eq(overflow_next[i])
             else:
                 m.d.comb += read_output_next[i].eq(read_port[i].data)
